@@ -462,9 +462,46 @@ def run_case(case):
                         _check_cut(sp, safe_yaml, text, v2, res, d2)
                 auth_context.set_ctx(None)
                 boot.wipe_db()
+    _rest_pass(case, rng, corpus, res)
     if res['sample'] is None:
         res['sample'] = {'note': 'no mutant accepted in this shard'}
     return res
+
+
+def _rest_pass(case, rng, corpus, res):
+    """A share of the mutants over HTTP: 2xx or 4xx, never 5xx."""
+    from mvf import rest as rest_mod
+    R = rest_mod.Rest()
+    res['monitor_evaluations']['http-status'] = 0
+    n = max(10, case['n'] // 5)
+    try:
+        for i in range(n):
+            name, doc, orig = rng.choice(corpus)
+            mut, op, path = mutate(rng, doc)
+            text = to_text(mut)
+            kind = kind_of(mut if isinstance(mut, dict) else doc)
+            coll = {'wf': 'workflows', 'wb': 'workbooks',
+                    'act': 'actions'}[kind]
+            if i % 25 == 0:
+                R.reset()
+            for verb, url in (('POST', '/v2/%s/validate' % coll),
+                              ('POST', '/v2/%s' % coll),
+                              ('PUT', '/v2/%s' % coll)):
+                res['executions'] += 1
+                res['monitor_evaluations']['http-status'] += 1
+                o = R.request(verb, url, text=text, roles='admin')
+                res['keys'].append([name, op, 'http', url, o['status']])
+                if o['status'] >= 500:
+                    res['violations'].append({
+                        'prop': 'C14', 'monitor': 'http-status',
+                        'mech': 'http-%s-%s' % (o['status'], coll),
+                        'seed_doc': name, 'op': op, 'text': text[:1500],
+                        'msg': '%s %s answered %s: %s' % (
+                            verb, url, o['status'], o['body'][:300])})
+    finally:
+        R.close()
+        from oslo_config import cfg
+        cfg.CONF.set_override('auth_enable', False, 'pecan')
 
 
 def _check_slicing(sp, safe_yaml, text, wb_spec, res, desc):
